@@ -1,11 +1,21 @@
 /-
   PtaProofs.Props.C08 — glob-style exclusion patterns mean "literal text, optional leading/trailing *"
   (property C08), for ALL patterns and ALL subject strings; and exclusion of a directory removes its sub tree.
+
+  Second half (`exclusion_exact_…`): one tree scanned under two exclusion tests `excl0 ≤ excl` (the option records
+  differ only in `exclusions`, the second has more patterns). Modules and parsed files: an entry remains iff it was
+  there before and no path from `module_path` down to it matches (`Clear`). Imports (default options): the import
+  pairs of the second graph are exactly the import pairs of the first between remaining modules — under the
+  carve-out `carveOut` (Bridge/ScanExcl.lean), which is needed (`carve_out_needed`): excluding `P/n.py` turns the
+  target of `from P import n` into `P`.
 -/
 import Bridge.Abs
+import Bridge.ScanTree
+import Bridge.ScanExcl
 import PtaProofs.Lemmas.GlobLabel
+import PtaProofs.Lemmas.ScanExclude
 namespace Pta.C08
-open Pta
+open Pta PtaSpec
 
 /-- `re.escape` is undone by the emitted-class reader: the literal survives the round trip -/
 theorem unescape_escape (s : Str) : unescape (reEscape s) = some s := Pta.unescape_escape_lemma s
@@ -47,5 +57,217 @@ theorem excluded_file_contributes_nothing (excl : Str → Bool) (base rootName :
 example : matchEmitted (convertPartialMatch "*a.b".toList) "xa.b".toList = some true := by decide
 example : matchEmitted (convertPartialMatch "*a.b".toList) "xaxb".toList = some false := by decide
 example : convertPartialMatch "a+(*".toList = "a\\+\\(.*".toList := by decide
+
+/-! ### exclusions remove exactly the matching files / directories, nothing else -/
+
+section exact
+variable (excl0 excl : Str → Bool) (hsub : ∀ p, excl0 p = true → excl p = true)
+  (base root : Str) (mp : List Str) (entries : List Entry)
+
+omit hsub in
+/-- the modules of a walk, under any exclusion test: the names of the entries (root directory included) at or below
+    `module_path` that are directories or `.py` files and have no excluded path from `module_path` down to themselves -/
+theorem walk_modules (hshape : treeShape entries = true) (hmp : mpOK entries mp = true) (x : Str) :
+    x ∈ (walkFrom excl0 base root mp entries).allModules ↔
+      ∃ e ∈ rootEntry :: entries, Survives excl0 base mp e ∧ x = moduleName root e.rel :=
+  ScanExclude.walkFrom_modules base root excl0 (ScanWalk.shape_of entries hshape) hmp x
+
+include hsub
+
+/-- C08, modules (through entries): with additional exclusions (`excl0 p → excl p`) the walk registers exactly the
+    entries it registered before and that are `Clear`: no path from `module_path` down to the entry — the entry's
+    own path and every directory above it — matches. So a matching file or directory, and everything below a
+    matching directory, contributes no module; every other module is as before. -/
+theorem exclusion_exact_modules (hshape : treeShape entries = true) (hmp : mpOK entries mp = true) (x : Str) :
+    x ∈ (walkFrom excl base root mp entries).allModules ↔
+      ∃ e ∈ rootEntry :: entries, Survives excl0 base mp e ∧ Clear excl base mp e ∧ x = moduleName root e.rel :=
+  ScanExclude.excl_modules_entries hsub base root (ScanWalk.shape_of entries hshape) hmp x
+
+/-- C08, parsed files (the sources of imports): exactly the `.py` files parsed before that are `Clear`, each with
+    its statements -/
+theorem exclusion_exact_files (hshape : treeShape entries = true) (hmp : mpOK entries mp = true)
+    (y : Str × List ImportStmt) :
+    y ∈ (walkFrom excl base root mp entries).files ↔
+      ∃ e ∈ entries, e.isDir = false ∧ Survives excl0 base mp e ∧ Clear excl base mp e ∧
+        y = (moduleName root e.rel, e.stmts) :=
+  ScanExclude.excl_files_entries hsub base root (ScanWalk.shape_of entries hshape) hmp y
+
+/-- C08, modules (through module names; on a well-formed tree the entry of a module is unique): a module remains iff
+    it was a module before and its entry is `Clear` -/
+theorem exclusion_exact_modules_names (hwf0 : treeWFFor excl0 base mp entries = true) (hmp : mpOK entries mp = true)
+    (hroot : compWF root = true) (x : Str) :
+    x ∈ (walkFrom excl base root mp entries).allModules ↔
+      x ∈ (walkFrom excl0 base root mp entries).allModules ∧
+      ∀ e ∈ rootEntry :: entries, Survives excl0 base mp e → moduleName root e.rel = x → Clear excl base mp e :=
+  ScanExclude.excl_modules_names hsub base root hwf0 hmp hroot x
+
+/-- a file or directory whose path matches, and everything below a matching directory, contributes no module -/
+theorem excluded_contributes_no_module (hwf0 : treeWFFor excl0 base mp entries = true) (hmp : mpOK entries mp = true)
+    (hroot : compWF root = true) (e : Entry) (he : e ∈ rootEntry :: entries) (hS : Survives excl0 base mp e)
+    (k : Nat) (hk1 : mp.length ≤ k) (hk2 : k ≤ e.rel.length) (hx : excl (pathStr base (e.rel.take k)) = true) :
+    moduleName root e.rel ∉ (walkFrom excl base root mp entries).allModules := by
+  intro hm
+  have := ((ScanExclude.excl_modules_names hsub base root hwf0 hmp hroot _).1 hm).2 e he hS rfl k hk1 hk2
+  rw [hx] at this
+  cases this
+
+/-- every other module is exactly as in the scan without the additional patterns -/
+theorem unexcluded_module_remains (hshape : treeShape entries = true) (hmp : mpOK entries mp = true)
+    (e : Entry) (he : e ∈ rootEntry :: entries) (hS : Survives excl0 base mp e) (hc : Clear excl base mp e) :
+    moduleName root e.rel ∈ (walkFrom excl base root mp entries).allModules :=
+  (ScanExclude.excl_modules_entries hsub base root (ScanWalk.shape_of entries hshape) hmp _).2 ⟨e, he, hS, hc, rfl⟩
+
+end exact
+
+/-- `scanParsed` is the walk under the exclusion test of the options -/
+theorem scanParsed_walkFrom (mt : Str → Str → Bool) (base root : Str) (mp : List Str) (entries : List Entry)
+    (o : ScanOptions) :
+    scanParsed mt base root mp entries o = walkFrom (isExcluded mt o.exclusions) base root mp entries := rfl
+
+/-- more patterns (of the same kind) exclude more: the hypothesis `excl0 p → excl p` for option records -/
+theorem more_patterns_exclude_more (mt : Str → Str → Bool) (a b c : Patterns) (h : a.add b = some c) (s : Str) :
+    isExcluded mt c s = (isExcluded mt a s || isExcluded mt b s) := ScanExclude.isExcluded_add mt a b c h s
+
+/-- … and no patterns exclude nothing -/
+theorem no_patterns_exclude_nothing (mt : Str → Str → Bool) (s : Str) :
+    isExcluded mt (.globs []) s = false ∧ isExcluded mt (.regexes []) s = false := ⟨rfl, rfl⟩
+
+section opts
+variable (mt : Str → Str → Bool) (base root : Str) (mp : List Str) (entries : List Entry) (o0 : ScanOptions)
+  (ps : Patterns) (hsub : ∀ p, isExcluded mt o0.exclusions p = true → isExcluded mt ps p = true)
+include hsub
+
+/-- C08, modules, for two option records that differ only in `exclusions` (the second excludes at least what the
+    first does) -/
+theorem exclusion_exact_modules_opts (hwf0 : treeWFFor (isExcluded mt o0.exclusions) base mp entries = true)
+    (hmp : mpOK entries mp = true) (hroot : compWF root = true) (x : Str) :
+    x ∈ (scanParsed mt base root mp entries (o0.withExclusions ps)).allModules ↔
+      x ∈ (scanParsed mt base root mp entries o0).allModules ∧
+      ∀ e ∈ rootEntry :: entries, Survives (isExcluded mt o0.exclusions) base mp e → moduleName root e.rel = x →
+        Clear (isExcluded mt ps) base mp e :=
+  ScanExclude.excl_modules_names hsub base root hwf0 hmp hroot x
+
+/-- C08, imports (default options: externals excluded, no level limit): under the carve-out, when the scan without
+    the additional patterns succeeds so does the scan with them, and its import pairs are exactly the import pairs
+    of the former between remaining modules (nodes of the new graph). In particular an excluded file contributes no
+    import, and no import between two remaining modules appears or disappears. -/
+theorem exclusion_exact_imports (hwf0 : treeWFFor (isExcluded mt o0.exclusions) base mp entries = true)
+    (hmp : mpOK entries mp = true) (hroot : compWF root = true)
+    (hxx : o0.excludeExternal = true) (hlim : o0.levelLimit = none) (hext : o0.externalExclusions.isEmpty = true)
+    (hst : ∀ e ∈ entries, ∀ st ∈ e.stmts, stmtOK (toSStmt st) = true)
+    (hcarve : carveOut root (toSEntries (isExcluded mt o0.exclusions) base entries)
+      (toSEntries (isExcluded mt ps) base entries) mp = true)
+    (g0 : PGraph Str) (h0 : generateGraph mt base root mp entries o0 = .ok g0) :
+    ∃ g, generateGraph mt base root mp entries (o0.withExclusions ps) = .ok g ∧
+      ∀ u v, (u, v) ∈ g.importPairs ↔ (u, v) ∈ g0.importPairs ∧ u ∈ g.nodes ∧ v ∈ g.nodes :=
+  ScanExclude.excl_imports_lemma hsub hwf0 hmp hroot hxx hlim hext hst hcarve g0 h0
+
+end opts
+
+/-! non-vacuity -/
+
+def p (l : List String) : List Str := l.map String.toList
+def noRe : Str → Str → Bool := fun _ _ => false
+
+/-- `proj/a/x.py` (`import proj.b.y`, `from proj.cache import z`, `import proj.cache.z`), `proj/b/y.py`
+    (`from ..a import x`), `proj/cache/z.py` (`import proj.a.x`) -/
+def exEntries : List Entry :=
+  [ { rel := p ["a"], isDir := true },
+    { rel := p ["a", "x.py"], isDir := false,
+      stmts := [.imp ["proj.b.y".toList], .impFrom (some "proj.cache".toList) ["z".toList] 0, .imp ["proj.cache.z".toList]] },
+    { rel := p ["b"], isDir := true },
+    { rel := p ["b", "y.py"], isDir := false, stmts := [.impFrom (some "a".toList) ["x".toList] 2] },
+    { rel := p ["cache"], isDir := true },
+    { rel := p ["cache", "z.py"], isDir := false, stmts := [.imp ["proj.a.x".toList]] } ]
+def exOpts0 : ScanOptions := { exclusions := .globs [] }
+def exPats : Patterns := .globs ["*cache".toList]
+
+/-- the hypotheses of `exclusion_exact_modules_opts` / `exclusion_exact_imports` hold for this tree, … -/
+example :
+    (∀ s, isExcluded noRe exOpts0.exclusions s = true → isExcluded noRe exPats s = true) ∧
+    treeWFFor (isExcluded noRe exOpts0.exclusions) "/r/proj".toList [] exEntries = true ∧ mpOK exEntries [] = true ∧
+    compWF "proj".toList = true ∧ exOpts0.excludeExternal = true ∧ exOpts0.levelLimit = none ∧
+    exOpts0.externalExclusions.isEmpty = true ∧
+    (∀ e ∈ exEntries, ∀ st ∈ e.stmts, stmtOK (toSStmt st) = true) ∧
+    carveOut "proj".toList (toSEntries (isExcluded noRe exOpts0.exclusions) "/r/proj".toList exEntries)
+      (toSEntries (isExcluded noRe exPats) "/r/proj".toList exEntries) [] = true := by
+  refine ⟨fun s h => (by simp [exOpts0, isExcluded] at h), ?_⟩
+  decide
+
+set_option maxRecDepth 20000 in
+/-- … the two module lists, … -/
+example :
+    (scanParsed noRe "/r/proj".toList "proj".toList [] exEntries exOpts0).allModules =
+      ["proj", "proj.a", "proj.a.x", "proj.b", "proj.b.y", "proj.cache", "proj.cache.z"].map String.toList ∧
+    (scanParsed noRe "/r/proj".toList "proj".toList [] exEntries (exOpts0.withExclusions exPats)).allModules =
+      ["proj", "proj.a", "proj.a.x", "proj.b", "proj.b.y"].map String.toList := by decide
+
+set_option maxRecDepth 40000 in
+/-- … and the two graphs' import pairs -/
+example :
+    (generateGraph noRe "/r/proj".toList "proj".toList [] exEntries exOpts0).toOption.map (·.importPairs) =
+      some [ ("proj.a.x".toList, "proj.b.y".toList), ("proj.a.x".toList, "proj.cache.z".toList),
+             ("proj.b.y".toList, "proj.a.x".toList), ("proj.cache.z".toList, "proj.a.x".toList) ] ∧
+    (generateGraph noRe "/r/proj".toList "proj".toList [] exEntries (exOpts0.withExclusions exPats)).toOption.map
+        (·.importPairs) =
+      some [ ("proj.a.x".toList, "proj.b.y".toList), ("proj.b.y".toList, "proj.a.x".toList) ] := by decide
+
+/-- `Clear` in Bool form, for concrete trees -/
+theorem clearB_iff (excl : Str → Bool) (base : Str) (mp : List Str) (e : Entry) :
+    clearB excl base mp e = true ↔ Clear excl base mp e := ScanExclude.clearB_iff excl base mp e
+
+example : clearB (isExcluded noRe exPats) "/r/proj".toList [] { rel := p ["a", "x.py"], isDir := false } = true ∧
+    clearB (isExcluded noRe exPats) "/r/proj".toList [] { rel := p ["cache", "z.py"], isDir := false } = false := by
+  decide
+
+/-- `r/P/n.py`, `r/m.py` (`from r.P import n`), `r/q.py` (`import r.m`) -/
+def exCarve : List Entry :=
+  [ { rel := p ["P"], isDir := true },
+    { rel := p ["P", "n.py"], isDir := false },
+    { rel := p ["m.py"], isDir := false, stmts := [.impFrom (some "r.P".toList) ["n".toList] 0] },
+    { rel := p ["q.py"], isDir := false, stmts := [.imp ["r.m".toList]] } ]
+def exCarvePats : Patterns := .globs ["*n.py".toList]
+
+set_option maxRecDepth 40000 in
+/-- The carve-out of `exclusion_exact_imports` is needed: excluding `P/n.py` turns the target of `from r.P import n`
+    in `r/m.py` from the module `r.P.n` into the package `r.P` — an import between two remaining modules (`r.m`,
+    `r.P`) that the scan without the pattern does not have. All other hypotheses of `exclusion_exact_imports` hold.
+    (The real library behaves the same way: `ImportConverter` tests `P.n` against the list of scanned modules.) -/
+theorem carve_out_needed :
+    treeWFFor (isExcluded noRe exOpts0.exclusions) "/x/r".toList [] exCarve = true ∧ mpOK exCarve [] = true ∧
+    (∀ e ∈ exCarve, ∀ st ∈ e.stmts, stmtOK (toSStmt st) = true) ∧
+    carveOut "r".toList (toSEntries (isExcluded noRe exOpts0.exclusions) "/x/r".toList exCarve)
+      (toSEntries (isExcluded noRe exCarvePats) "/x/r".toList exCarve) [] = false ∧
+    (generateGraph noRe "/x/r".toList "r".toList [] exCarve exOpts0).toOption.map (·.importPairs) =
+      some [ ("r.m".toList, "r.P.n".toList), ("r.q".toList, "r.m".toList) ] ∧
+    (generateGraph noRe "/x/r".toList "r".toList [] exCarve (exOpts0.withExclusions exCarvePats)).toOption.map
+        (fun g => (g.nodes, g.importPairs)) =
+      some ( ["r", "r.P", "r.m", "r.q"].map String.toList,
+             [ ("r.m".toList, "r.P".toList), ("r.q".toList, "r.m".toList) ] ) := by decide
+
+/-! ### where the conversion looks at the list of internal modules -/
+
+/-- `ImportConverter._convert` depends on the list of internal modules only through the membership of the
+    `consulted` strings (Bridge/ScanExcl.lean): `prefix.name` in `_adjust_with_root_prefix`, the adjusted `P.n` of
+    `from P import n`, and the resolved `P.n` of a relative `from`-import -/
+theorem conversion_consults (importer absPrefix : Str) (internal internal' : List Str) (st : ImportStmt)
+    (h : ∀ q ∈ consulted importer absPrefix st, internal.contains q = internal'.contains q) :
+    convertStmt importer absPrefix internal st = convertStmt importer absPrefix internal' st :=
+  ScanExclude.convertStmt_congr importer absPrefix internal internal' st h
+
+/-- hence a statement none of whose consulted strings is an excluded module (in `internal0`, not in `internal`)
+    is converted to the same import records with and without the additional exclusions -/
+theorem conversion_unaffected (importer absPrefix : Str) (internal0 internal : List Str) (st : ImportStmt)
+    (hsub : ∀ q, q ∈ internal → q ∈ internal0)
+    (h : ∀ q ∈ consulted importer absPrefix st, q ∈ internal0 → q ∈ internal) :
+    convertStmt importer absPrefix internal st = convertStmt importer absPrefix internal0 st := by
+  apply ScanExclude.convertStmt_congr
+  intro q hq
+  rw [Bool.eq_iff_iff, List.contains_iff_mem, List.contains_iff_mem]
+  exact ⟨hsub q, h q hq⟩
+
+example : consulted "r.m".toList [] (.impFrom (some "r.P".toList) ["n".toList] 0) =
+    [".r.P.n".toList, "r.P.n".toList, ".r.P".toList] ∧
+    consulted "r.a.m".toList "r".toList (.impFrom (some "P".toList) ["n".toList] 2) = ["r.P.n".toList] := by decide
 
 end Pta.C08
